@@ -72,6 +72,17 @@ def generate(tier, rng):
             e.extra['shape'] = 'disabled variant with the snake name of an enabled one (%s)' % kind
             e.extra['no_noise'] = True
             enums.append(e)
+    # POPULAR variant names on a Copy, field-less, iterable enum whose module imports the derives BY NAME (as users do: the
+    # import brings in anything else the runtime crate exports under those names): the predicates keep meaning "is this variant"
+    for j, idents in enumerate((['First', 'Last', 'Empty', 'Nothing'], ['Some', 'None', 'Ok', 'Err'], ['Next', 'Count', 'Len', 'Default', 'Iter'])):
+        e = ESpec(id='c13pop%d' % j, name='EnC13pop%d' % j, derives=['EnumIs', 'EnumTryAs', 'EnumIter', 'EnumCount', 'VariantNames', 'VariantArray'],
+                  feats=['is', 'tryas', 'absent'])
+        e.variants = [VSpec(ident=i) for i in idents]
+        e.extra['base_derives'] = ('Debug', 'PartialEq', 'Clone', 'Copy', 'Eq', 'Hash')
+        e.extra['import_derives_by_name'] = True
+        e.extra['shape'] = 'popular variant names, derives imported by name'
+        e.extra['no_noise'] = True
+        enums.append(e)
     # the model tells the harness which methods exist and what they are called
     lines = []
     for e in enums:
